@@ -55,6 +55,8 @@ def run(ctx, tier):
                  ("K6", "the AVX-512 IPv6 prefilter can only reject, identically in both URL types, and is pure"),
                  ("K4", "development-check code is effect-free"),
                  ("K4b", "no statement exists only when development checks are off"), ("K5", "amalgamation is body-for-body identical"),
+                 ("K8", "an assertion about a prefix/suffix of a string is implied by the code in front of it (a single conditional strip "
+                        "does not establish that the delimiter is gone)"),
                  ("K7", "the asserted offset-consistency predicate rejects only decreasing chains (empty components are legal)")):
         ctx.rule(r, t)
     cfgs = ["release", "ssse3", "avx512", "devchecks", "amalgamated"]     # the property is about configurations
@@ -71,6 +73,7 @@ def run(ctx, tier):
     check_assertions(ctx, fxs["devchecks"], fxs["release"])
     ctx.set_config("devchecks")
     check_consistency_predicate(ctx, fxs["devchecks"])
+    check_prefix_assertions(ctx, fxs["devchecks"])
     ctx.set_config("amalgamated")
     check_amalgamation(ctx, fxs["amalgamated"], fxs["release"])
 
@@ -307,6 +310,51 @@ def check_avx512_ipv4(ctx, fx):
 
 # ---------------------------------------------------------------------------
 # non-const overloads that only hand out a reference; a write through it is an assignment node and is checked as such
+def check_prefix_assertions(ctx, fx):
+    """K8.  `if (v.starts_with("#")) v.remove_prefix(1); ADA_ASSERT_TRUE(!v.starts_with("#"));` removes ONE delimiter and then
+    asserts that none is left: for "##a" the assertion fires and a development-checks build aborts where the release build
+    goes on.  An ADA_ASSERT whose condition is (the negation of) starts_with / ends_with of a literal must be established on
+    every path: by a dominating test of the same call with the receiver untouched since, or by a loop that strips until the
+    test fails.  Assertions of this shape that are not established are reported."""
+    n = 0
+    for f in fx.functions:
+        if not C.first_party(f):
+            continue
+        blk = {b["id"]: b for b in f["blocks"]}
+        for b in f["blocks"]:
+            t = b["term"]
+            c = t.get("econd") if t.get("econd") is not None else t.get("cond")
+            if c is None or not any(m.startswith("ADA_ASSERT") for m in (t.get("macros") or [])):
+                continue
+            c0 = X.strip(c)
+            negs = 0
+            while isinstance(c0, dict) and c0.get("k") == "un" and c0.get("op") == "!":
+                negs += 1
+                c0 = X.strip(c0["e"])
+            if not (isinstance(c0, dict) and c0.get("k") == "call" and c0.get("name") in ("starts_with", "ends_with") and c0.get("recv") is not None):
+                continue
+            lits = [x.get("v") for a in c0.get("args", []) for x in X.walk(a) if x.get("k") == "lit" and (x.get("str") or x.get("chr"))]
+            if not lits:
+                continue
+            n += 1
+            # the macro tests !(cond): the asserted fact is `cond`; cond = !starts_with(...)  <=>  odd number of negations after
+            # the macro's own, i.e. the call must be FALSE.  Look for a dominating loop `while (v.starts_with(L)) strip` —
+            # the only construct that establishes it for every input; a single `if` does not.
+            call_txt = X.show(c0)
+            established = False
+            for b2 in f["blocks"]:
+                t2 = b2["term"]
+                if t2.get("kind") in ("WhileStmt", "ForStmt", "DoStmt") and t2.get("cond") is not None and call_txt in X.show(t2["cond"]) \
+                        and not any(m.startswith("ADA_ASSERT") for m in (t2.get("macros") or [])):
+                    established = True
+            ctx.check("K8", "%s: ADA_ASSERT on `%s`" % (f["qname"].split("<")[0], call_txt[:60]), established,
+                      "established by a stripping loop",
+                      "the assertion demands that `%s` is false, but nothing in front of it removes *every* leading/trailing %r (at most "
+                      "one is stripped): for a value with two of them the assertion fires — a development-checks build aborts on an "
+                      "input the release build handles" % (call_txt[:60], lits[0]), where=(t.get("loc") or "").replace("/repo/", ""))
+    ctx.floor("K8", n, 0, "assertions about string prefixes / suffixes")
+
+
 def check_consistency_predicate(ctx, fx):
     """K7.  url_components::check_offset_consistency() is what ADA_ASSERT_TRUE(validate()) asserts after every edit when
     development checks are on.  Every component may be empty ("foo:" has protocol_end == username_end == host_start ==
